@@ -193,65 +193,168 @@ AttrD = TKey('AttrD')
 AtomTok = TTuple(TStr, AttrD)
 
 
-def setup_ga(cx):
-    tokens = cx.box('tokens', TSeq(TStr))
-    cx.spec_env['T0'] = SV(TSeq(TStr), tokens.e)
+def ga_world(cx):
     parse = cx.uf('parse_attr', [TStr], AttrD)                       # _parse_atom_attributes(token) (json; may raise ValueError)
     cx.spec_env['_parse_atom_attributes'] = Builtin(lambda e, t: SV(AttrD, parse(to_z3(t, TStr))), '_parse_atom_attributes')
     cx.spec_env['EMPTY'] = SV(AttrD, z3.Const('empty_AttrD', AttrD.sort()))
+
+
+def setup_ga(cx):
+    ga_world(cx)
+    tokens = cx.box('tokens', TSeq(TStr))
+    cx.spec_env['T0'] = SV(TSeq(TStr), tokens.e)
     return dict(tokens=tokens, natoms=cx.val('natoms', TOpt(TInt)))
 
 
 SPEC_GA = {
     'brace': "lambda t: t.startswith('{')",
-    # where the token after position p starts an attribute dictionary
-    'has_attr': "lambda p: p + 1 < len(T0) and brace(T0[p + 1])",
-    'width': "lambda p: 2 if has_attr(p) else 1",
-    # the position just after the last atom
-    'endpos': "lambda r: 0 if len(r) == 0 else g_s[len(r) - 1] + width(g_s[len(r) - 1])",
+    # where the token after position p of the line T starts an attribute dictionary
+    'has_attr': "lambda T, p: p + 1 < len(T) and brace(T[p + 1])",
+    'width': "lambda T, p: 2 if has_attr(T, p) else 1",
+    # the position just after the n-th atom
+    'endpos': "lambda T, n: ST(T, n)",
 }
+# ST(T, j): the token at which the j-th atom of the line T starts (an atom takes one token, or two with its attributes)
+RECS_GA = [('ST', [('T', TSeq(TStr)), ('j', TInt)], TInt,
+            "0 if j <= 0 else ST(T, j - 1) + (2 if (ST(T, j - 1) + 1 < len(T) and T[ST(T, j - 1) + 1].startswith('{')) else 1)")]
 GA_INV = [
     "0 <= g_pos and g_pos <= len(T0) and len(tokens) == len(T0) - g_pos",
     "forall(lambda q: implies(0 <= q and q < len(tokens), tokens[q] == T0[g_pos + q]))",
-    "len(g_s) == len(atoms)",
-    # atom j starts at token g_s[j]; starts are consecutive (an atom takes one token, or two with its attributes)
-    "forall(lambda j: implies(0 <= j and j < len(atoms), 0 <= g_s[j] and g_s[j] < g_pos and T0[g_s[j]] != '--' and not brace(T0[g_s[j]]) and "
-    "   atoms[j][0] == T0[g_s[j]] and atoms[j][1] == (parse_attr(T0[g_s[j] + 1]) if has_attr(g_s[j]) else EMPTY)))",
-    "implies(len(atoms) > 0, g_s[0] == 0 and g_pos == g_s[len(atoms) - 1] + width(g_s[len(atoms) - 1]))",
-    "implies(len(atoms) == 0, g_pos == 0)",
-    "forall(lambda j: implies(0 <= j and j + 1 < len(atoms), g_s[j + 1] == g_s[j] + width(g_s[j])))",
+    "g_pos == ST(T0, len(atoms))",
+    "forall(lambda j: implies(0 <= j and j < len(atoms), 0 <= ST(T0, j) and ST(T0, j) < g_pos and T0[ST(T0, j)] != '--' and "
+    "   not brace(T0[ST(T0, j)]) and atoms[j][0] == T0[ST(T0, j)] and "
+    "   atoms[j][1] == (parse_attr(T0[ST(T0, j) + 1]) if has_attr(T0, ST(T0, j)) else EMPTY)))",
     "implies(natoms is not None, len(atoms) <= natoms or len(atoms) == 0)",
 ]
+GA_ENS = [
+    # the atoms are the leading tokens, each with the attribute dictionary that directly follows it (if one does) ...
+    "forall(lambda j: implies(0 <= j and j < len(result), 0 <= ST({T}, j) and ST({T}, j) < len({T}) and result[j][0] == {T}[ST({T}, j)] and "
+    "   {T}[ST({T}, j)] != '--' and result[j][1] == (parse_attr({T}[ST({T}, j) + 1]) if has_attr({T}, ST({T}, j)) else EMPTY)))",
+    # ... up to the end of the line, the '--' separator (which is consumed, also right after the expected number of
+    # atoms), or the expected number of atoms; what follows is left in `tokens`
+    "0 <= ST({T}, len(result)) and ST({T}, len(result)) <= len({T})",
+    "(ST({T}, len(result)) == len({T}) and len(tokens) == 0) or "
+    "(ST({T}, len(result)) < len({T}) and {T}[ST({T}, len(result))] == '--' and len(tokens) == len({T}) - ST({T}, len(result)) - 1 and "
+    "   forall(lambda q: implies(0 <= q and q < len(tokens), tokens[q] == {T}[ST({T}, len(result)) + 1 + q]))) or "
+    "(ST({T}, len(result)) < len({T}) and {T}[ST({T}, len(result))] != '--' and natoms is not None and len(result) >= natoms and "
+    "   len(tokens) == len({T}) - ST({T}, len(result)) and "
+    "   forall(lambda q: implies(0 <= q and q < len(tokens), tokens[q] == {T}[ST({T}, len(result)) + q])))",
+    "implies(natoms is not None and natoms >= 1, len(result) <= natoms)",
+]
 get_atoms = FunctionContract(
-    F, '_get_atoms', 'C13', setup=setup_ga, spec_defs=SPEC_GA, spec_env=dict(AttrD=AttrD), modular=False,
-    locals=dict(atoms=TSeq(AtomTok), g_s=TSeq(TInt)), result_ty=TSeq(AtomTok),
-    ghost_at={'entry': "g_pos = 0\ng_s = []"},
-    ensures=[
-        # the atoms are the leading tokens, each with the attribute dictionary that directly follows it (if one does) ...
-        "len(g_s) == len(result)",
-        "forall(lambda j: implies(0 <= j and j < len(result), result[j][0] == T0[g_s[j]] and T0[g_s[j]] != '--' and "
-        "   result[j][1] == (parse_attr(T0[g_s[j] + 1]) if has_attr(g_s[j]) else EMPTY)))",
-        "implies(len(result) > 0, g_s[0] == 0)",
-        "forall(lambda j: implies(0 <= j and j + 1 < len(result), g_s[j + 1] == g_s[j] + width(g_s[j])))",
-        # ... up to the end of the line, the '--' separator (which is consumed, also right after the expected number of
-        # atoms), or the expected number of atoms; what follows is left in `tokens`
-        "0 <= endpos(result) and endpos(result) <= len(T0)",
-        "(endpos(result) == len(T0) and len(tokens) == 0) or "
-        "(endpos(result) < len(T0) and T0[endpos(result)] == '--' and len(tokens) == len(T0) - endpos(result) - 1 and "
-        "   forall(lambda q: implies(0 <= q and q < len(tokens), tokens[q] == T0[endpos(result) + 1 + q]))) or "
-        "(endpos(result) < len(T0) and T0[endpos(result)] != '--' and natoms is not None and len(result) >= natoms and "
-        "   len(tokens) == len(T0) - endpos(result) and "
-        "   forall(lambda q: implies(0 <= q and q < len(tokens), tokens[q] == T0[endpos(result) + q])))",
-        "implies(natoms is not None and natoms >= 1, len(result) <= natoms)",
-    ],
-    raises={'OSError': ["exists(lambda p: 0 <= p and p < len(T0) and brace(T0[p]))"]},
+    F, '_get_atoms', 'C13', setup=setup_ga, spec_defs=SPEC_GA, spec_recs=RECS_GA, spec_env=dict(AttrD=AttrD),
+    locals=dict(atoms=TSeq(AtomTok)), result_ty=TSeq(AtomTok),
+    ghost_at={'entry': "g_pos = 0"},
+    ensures=[e.format(T='old(tokens)') for e in GA_ENS],
+    raises={'OSError': ["exists(lambda p: 0 <= p and p < len(old(tokens)) and brace(old(tokens)[p]))"]},
     modifies=['tokens'],
-    loops={'L1': LoopSpec(inv=GA_INV, modifies=['tokens', 'atoms', 'g_s'], locals=dict(atoms=TSeq(AtomTok), g_s=TSeq(TInt), g_pos=TInt, g_p0=TInt),
+    loops={'L1': LoopSpec(inv=GA_INV, modifies=['tokens', 'atoms'], locals=dict(atoms=TSeq(AtomTok), g_pos=TInt),
                           decreases="len(tokens)",
-                          ghost_pre="g_p0 = g_pos",
-                          ghost_end="g_s.append(g_p0)\ng_pos = len(T0) - len(tokens)")},
+                          ghost_end="g_pos = len(T0) - len(tokens)")},
     canary=[("if tokens and tokens[0] == '--':", "if tokens and tokens[0] == '---':"),
             ("if next_token.startswith('{'):", "if token.startswith('{'):"),
             ("if natoms is not None and len(atoms) >= natoms:", "if natoms is not None and len(atoms) > natoms:")],
 )
 CONTRACTS.append(get_atoms)
+
+
+# ------------------------------------------------------------------ _base_parser: one interaction line of a .ff file
+Params, Meta, Refs = TKey('Params'), TKey('Meta'), TKey('Refs')
+InterRec = TTuple(Refs, Params, Meta, TBool, names=['atoms', 'parameters', 'meta', 'is_delete'])
+
+
+def setup_bp(kind):
+    def setup(cx):
+        eng = cx.eng
+        from pyvc.builtins import list_append, getitem, setitem, contains
+        ga_world(cx)
+        tokens = cx.box('tokens', TSeq(TStr))
+        treat = cx.uf('treated', [TSeq(AtomTok), TStr], Refs)           # _treat_{block,link}_interaction_atoms(atoms, context, section)
+        params_of = cx.uf('params_of', [TSeq(TStr)], Params)             # _parse_interaction_parameters(tokens)
+        meta_of = cx.uf('meta_of', [TStr], Meta)                         # json.loads(token)
+        merged = cx.uf('merged', [Meta, TStr], Meta)                     # dict(ChainMap(meta, context._apply_to_all_interactions[section]))
+        attrs_of = cx.uf('attrs_of', [TSeq(AtomTok)], Params)
+        cx.spec_env['NO_META'] = SV(Meta, z3.Const('empty_Meta', Meta.sort()))
+        ADDED = cx.heap('ADDED', cx.box('ADDED', TMap(TStr, TSeq(InterRec))))       # context.interactions
+        REMOVED = cx.heap('REMOVED', cx.box('REMOVED', TMap(TStr, TSeq(InterRec)))) # context.removed_interactions
+        section = cx.val('section', TStr)
+
+        def treat_fn(e, atoms, context, sec):
+            # may raise IOError (unknown atom, bad index, conflicting attributes): not modelled as a failure here
+            return SV(Refs, treat(to_z3(atoms, TSeq(AtomTok)), to_z3(sec, TStr)))
+        cx.spec_env['_treat_block_interaction_atoms'] = Builtin(treat_fn, '_treat_block_interaction_atoms')
+        cx.spec_env['_treat_link_interaction_atoms'] = Builtin(treat_fn, '_treat_link_interaction_atoms')
+        cx.spec_env['_parse_interaction_parameters'] = Builtin(lambda e, t: SV(Params, params_of(to_z3(t, TSeq(TStr)))),
+                                                               '_parse_interaction_parameters')
+        cx.spec_env['json'] = Obj('json', loads=Builtin(lambda e, t: SV(Meta, meta_of(to_z3(t, TStr))), 'json.loads'))
+        apply_all = Obj('_apply_to_all_interactions', __getitem__=Builtin(lambda e, k: Obj('defaults', section=k), 'defaults[]'))
+        cx.spec_env['collections'] = Obj('collections', ChainMap=Builtin(lambda e, m, d: ('chain', m, d), 'ChainMap'))
+
+        def dict_(e, x=None):
+            if isinstance(x, tuple) and x and x[0] == 'chain':
+                m = x[1]
+                me = z3.Const('empty_Meta', Meta.sort()) if (isinstance(m, Box) and m.ty is None) else to_z3(m, Meta)
+                return SV(Meta, merged(me, to_z3(x[2].attrs['section'], TStr)))
+            raise EngineError('dict() of this shape')
+        cx.spec_env['dict'] = Builtin(dict_, 'dict')
+
+        def mk(is_delete):
+            def f(e, atoms=None, parameters=None, meta=None, atom_attrs=None):
+                return (atoms, parameters, meta, is_delete)
+            return f
+        cx.spec_env['Interaction'] = Builtin(mk(False), 'Interaction')
+        cx.spec_env['DeleteInteraction'] = Builtin(mk(True), 'DeleteInteraction')
+
+        def table(heap):
+            o = Obj('interactions')
+
+            def get(e, k, d=None):
+                if e.branch(e._b(contains(e, heap, k))):
+                    return getitem(e, heap, k)
+                return Box(TSeq(InterRec))
+            o.attrs['get'] = Builtin(get, 'interactions.get')
+            o.attrs['__setitem__'] = Builtin(lambda e, k, v: setitem(e, heap, k, v), 'interactions[]=')
+            return o
+        context = Obj('context', interactions=table(ADDED), removed_interactions=table(REMOVED), _apply_to_all_interactions=apply_all)
+        return dict(tokens=tokens, context=context, context_type=kind, section=section, natoms=cx.val('natoms', TOpt(TInt)),
+                    delete=cx.val('delete', TBool))
+    return setup
+
+
+SPEC_BP = dict(SPEC_GA)
+SPEC_BP.update({
+    'T0': "lambda: old(tokens)",
+    # number of atoms the line states: up to '--', or the expected number
+    'n_sep': "lambda: exists(lambda p: 0 <= p and p < len(T0()) and T0()[p] == '--')",
+})
+BP_NEW = ("len({H}[section]) == (len(old({H})[section]) if section in old({H}) else 0) + 1 and section in {H} and "
+          "forall(lambda k: implies(section in old({H}) and 0 <= k and k < len(old({H})[section]), {H}[section][k] == old({H})[section][k])) and "
+          "forall(lambda s2: implies(s2 != section, (s2 in {H}) == (s2 in old({H})) and implies(s2 in {H}, {H}[s2] == old({H})[s2])), TStr)")
+BP_SAME = "forall(lambda s2: (s2 in {H}) == (s2 in old({H})) and implies(s2 in {H}, {H}[s2] == old({H})[s2]), TStr)"
+for _kind in ('block', 'link'):
+    CONTRACTS.append(FunctionContract(
+        F, '_base_parser', 'C13', short='_base_parser[%s]' % _kind, setup=setup_bp(_kind), spec_defs=SPEC_BP, spec_recs=RECS_GA,
+        spec_env=dict(AttrD=AttrD, Params=Params, Meta=Meta, Refs=Refs),
+        locals=dict(atoms=TSeq(AtomTok)),
+        ensures=[
+            # exactly one interaction is recorded: under the section, after the earlier ones; a removal only in a link
+            "implies(not delete, " + BP_NEW.format(H='ADDED') + " and " + BP_SAME.format(H='REMOVED') + ")",
+            "implies(delete, " + BP_NEW.format(H='REMOVED') + " and " + BP_SAME.format(H='ADDED') + ")",
+            "implies(delete, context_type == 'link')",
+            # a line with more than one '--', or with a '--' after more atoms than the section takes, is rejected (IOError)
+            "forall(lambda p, q: implies(0 <= p and p < q and q < len(old(tokens)), not (old(tokens)[p] == '--' and old(tokens)[q] == '--')))",
+            "forall(lambda q: implies(0 <= q and q < g_left, g_rest[q] != '--'))",
+            # it states the atoms of the line as _get_atoms delimits them - all of them, and as many as the section takes -,
+            "implies(natoms is not None, len(atoms) == natoms)",
+            "(ADDED if not delete else REMOVED)[section][len((ADDED if not delete else REMOVED)[section]) - 1].atoms == treated(atoms, section)",
+            "(ADDED if not delete else REMOVED)[section][len((ADDED if not delete else REMOVED)[section]) - 1].is_delete == delete",
+        ] + [e.format(T='old(tokens)').replace('result', 'atoms').replace('len(tokens)', 'g_left').replace('tokens[q]', 'g_rest[q]')
+             for e in GA_ENS[:2]],
+        raises={'OSError': []},
+        allow_exc=('OSError',),
+        modifies=['tokens', 'ADDED', 'REMOVED'],
+        ghost_at={'after:stmt:atoms = _get_atoms(tokens, natoms)': "g_left = len(tokens)\ng_rest = list(tokens)"},
+        canary=[("if natoms is not None and len(atoms) != natoms:", "if natoms is not None and len(atoms) > natoms:"),
+                ("interaction_list = context.interactions.get(section, [])", "interaction_list = []"),
+                ("if context_type != 'link' and delete:", "if context_type == 'link' and delete:")],
+    ))
